@@ -299,7 +299,7 @@ class Facts:
     def reachable_from(self, roots):
         """crate bodies reachable through resolved local calls and closure creation"""
         seen, work = {}, list(roots)
-        modules = {a.split('::')[0] for a in self.adts}
+        modules = {a.split('::')[0] for a in self.adts if not a.startswith('<')} | {f.path.split('::')[0] for f in self.fns() if not f.path.startswith('<')}
         # methods the crate implements for library traits (Iterator::next, PartialEq::eq, Clone::clone, Drop::drop ..) are called back
         # by library code (`zip(..).any(..)` drives `next`), which no call in the crate's own MIR shows: such a method is reachable as
         # soon as its Self type occurs in a reachable body
@@ -324,6 +324,18 @@ class Facts:
                     continue
                 base = f.impl_self.split('<')[0]
                 if base and base.split('::')[0] in modules and re.search(r'(^|[^A-Za-z0-9_:])%s($|[^A-Za-z0-9_])' % re.escape(base), alltys):
+                    more.append(f)
+            # methods of the crate's own traits called on a generic type (`P::compress(..)`): the call resolves to the trait
+            # declaration only, every implementation in the crate may be the one that runs
+            decls = set()
+            for b in seen.values():
+                for bb, t in b.calls():
+                    if not b.block[bb]['cleanup']:
+                        decls.add(callee_decl(t))
+            for f in self.fns():
+                if f.key in seen or not f.impl_trait or f.is_closure or f.impl_trait.split('::')[0] not in modules:
+                    continue
+                if f.impl_trait + '::' + f.path.split('::')[-1] in decls:
                     more.append(f)
             if not more:
                 break
